@@ -152,6 +152,18 @@ def user_meta_expected(ops, results):
     return m
 
 def evaluate(run, lines, meta, exe, drv):
+    schema_pending = []
+    _evaluate(run, lines, meta, exe, drv, schema_pending)
+    if schema_pending:
+        # the schema embedded in the header reads back as another schema: a known finding (F19) only where the faithful
+        # model of serialise + parse loses the same thing on the same schema
+        mod = fw.run_lines(drv, ['%s (schema-json %s)' % (cid, sx_) for cid, _, sx_, _ in schema_pending])
+        for cid, case, sx_, back in schema_pending:
+            m = parse(mod.get(cid, '(missing)'))
+            same = tag(m) == 'ok' and tag(m[5]) == 'ok' and show(m[5][1]) == back
+            run.fail('embedded-schema-null-namespace' if same and fw.null_ns_schema(case['schema']) else 'schema-differs', 'embedded schema reads back differently', case)
+
+def _evaluate(run, lines, meta, exe, drv, schema_pending):
     impl = fw.run_lines(exe, lines)
     rlines, mlines = [], []
     parsed = {}
@@ -255,8 +267,7 @@ def evaluate(run, lines, meta, exe, drv):
                 if um != user_meta_expected(mt['ops'], results):
                     run.fail('metadata-differs', 'user metadata read back %s' % um, case)
                 if show(rd[1][1]) != show(o[1]):
-                    cls = 'embedded-schema-null-namespace' if '"namespace": ""' in mt['schema'] else 'schema-differs'
-                    run.fail(cls, 'embedded schema reads back differently', case)
+                    schema_pending.append((cid, case, show(o[1]), show(rd[1][1])))
         # --- correspondence (null codec): same results, same header content, byte-identical block section
         if mt['codec'] == 'null' and cid in model:
             m = parse(model[cid])
